@@ -160,7 +160,7 @@ fn record(out: &mut Out, s: &mut Session, op: &Op, history: &mut Vec<String>, se
                 cand_pre: cand_pre.as_ref(), cand_post: cand_post.as_ref(),
                 outcome: "ok", no_word_pre: None, no_word_post: None, getter_fail: None,
                 display_pre: display_pre.as_deref(), display_post: display_post.as_deref(),
-                len_pre, len_post: s.ed.len(), commit_post: &commit_post, conv: &conv_step,
+                len_pre, len_post: s.ed.len(), commit_post: &commit_post, conv: &conv_step, alts_pre: &[],
             };
             crate::oracle_c06::check(out, &step);
             out.rec(&format!("ed {} | {} | {} | {} {} => ok | {} | {} | {}", opstr, pre, dict_pre, lay_ans, conv_ans, post, ret, dict_post));
